@@ -187,6 +187,7 @@ func analyse(bs []byte) []btLine {
 
 type btSummary struct {
 	exprs  []string // prefix forms / ERR, in order
+	shape  string   // one letter per line: g (//go:build), p (// +build), o (any other line)
 	parsed []constraint.Expr
 	others []string
 	bads   []string
@@ -195,6 +196,14 @@ type btSummary struct {
 func summarise(ls []btLine) btSummary {
 	var s btSummary
 	for _, l := range ls {
+		switch {
+		case l.kind == lkOther:
+			s.shape += "o"
+		case constraint.IsGoBuild(l.text):
+			s.shape += "g"
+		default:
+			s.shape += "p"
+		}
 		switch l.kind {
 		case lkOther:
 			s.others = append(s.others, l.text)
@@ -205,6 +214,13 @@ func summarise(ls []btLine) btSummary {
 			s.exprs = append(s.exprs, "ERR")
 			s.bads = append(s.bads, l.text)
 		}
+	}
+	return s
+}
+
+func dash(s string) string {
+	if s == "" {
+		return "-"
 	}
 	return s
 }
@@ -231,10 +247,11 @@ func btCase(o *out, id string, header []byte) {
 
 	otherSame := sameStrings(in.others, res.others)
 	badSame := sameStrings(in.bads, res.bads)
-	o.add("BT %s in=%s out=%s other_in=%d other_out=%d other_same=%d bad_in=%d bad_out=%d bad_same=%d",
+	o.add("BT %s in=%s out=%s other_in=%d other_out=%d other_same=%d bad_in=%d bad_out=%d bad_same=%d in_lines=%s out_lines=%s",
 		id, joinOrDash(in.exprs, ";"), joinOrDash(res.exprs, ";"),
 		len(in.others), len(res.others), b2i(otherSame),
-		len(in.bads), len(res.bads), b2i(badSame))
+		len(in.bads), len(res.bads), b2i(badSame),
+		dash(in.shape), dash(res.shape))
 
 	// ---- sanity check (not part of the protocol's verdict)
 	if err != nil {
@@ -244,23 +261,57 @@ func btCase(o *out, id string, header []byte) {
 	if !otherSame {
 		o.add("X BT %s non-constraint lines changed", id)
 	}
+	outExprs := res.parsed
 	if !badSame {
-		if len(res.bads) > len(in.bads) {
-			// The function printed a constraint line that go/build/constraint
-			// rejects although every such input line was left alone: a
-			// defect of the generator (double negation), reported as a note
-			// so that X stays reserved for semantic mismatches.
-			o.add("N BT %s unparsable_out=%d header=%q output=%q", id, len(res.bads)-len(in.bads), header, buf.String())
-		} else {
-			o.add("X BT %s malformed constraint lines changed", id)
+		// Constraint-shaped output lines that go/build/constraint rejects
+		// and that are not verbatim copies of rejected input lines.
+		remaining := map[string]int{}
+		for _, b := range in.bads {
+			remaining[b]++
 		}
-		return
+		var fresh []string
+		for _, b := range res.bads {
+			if remaining[b] > 0 {
+				remaining[b]--
+			} else {
+				fresh = append(fresh, b)
+			}
+		}
+		for _, n := range remaining {
+			if n > 0 {
+				o.add("X BT %s malformed constraint lines changed or dropped header=%q output=%q", id, header, buf.String())
+				return
+			}
+		}
+		nested := false
+		for _, e := range in.parsed {
+			if hasNestedNot(e) {
+				nested = true
+			}
+		}
+		for _, b := range fresh {
+			e, ok := lenientGoBuild(b)
+			if !ok {
+				o.add("X BT %s output line is not even leniently parsable: %q header=%q", id, b, header)
+				return
+			}
+			outExprs = append(outExprs, e)
+		}
+		if nested {
+			// Known defect class: the input negates a negation, "!(!x)", and the
+			// function prints it with Expr.String as "!!x", which the go
+			// command rejects. Reported as a note; the semantic check goes
+			// on with a lenient reading of the line.
+			o.add("N BT %s unparsable_out=%d header=%q output=%q", id, len(fresh), header, buf.String())
+		} else {
+			o.add("X BT %s unparsable output without nested negation in the input header=%q output=%q", id, header, buf.String())
+		}
 	}
 	tagset := map[string]bool{"cff": true}
 	for _, e := range in.parsed {
 		collectTags(e, tagset)
 	}
-	for _, e := range res.parsed {
+	for _, e := range outExprs {
 		collectTags(e, tagset)
 	}
 	var tags []string
@@ -290,11 +341,121 @@ func btCase(o *out, id string, header []byte) {
 			flipped[k] = v
 		}
 		flipped["cff"] = !val["cff"]
-		if conj(res.parsed, val) != conj(in.parsed, flipped) {
+		if conj(outExprs, val) != conj(in.parsed, flipped) {
 			o.add("X BT %s truth table differs at %v header=%q output=%q", id, val, header, buf.String())
 			return
 		}
 	}
+}
+
+func hasNestedNot(e constraint.Expr) bool {
+	switch e := e.(type) {
+	case *constraint.NotExpr:
+		if _, ok := e.X.(*constraint.NotExpr); ok {
+			return true
+		}
+		return hasNestedNot(e.X)
+	case *constraint.AndExpr:
+		return hasNestedNot(e.X) || hasNestedNot(e.Y)
+	case *constraint.OrExpr:
+		return hasNestedNot(e.X) || hasNestedNot(e.Y)
+	}
+	return false
+}
+
+// lenientGoBuild parses a //go:build line like go/build/constraint does,
+// except that it accepts "!!x". Used only by the sanity check.
+func lenientGoBuild(line string) (constraint.Expr, bool) {
+	const pfx = "//go:build"
+	if !strings.HasPrefix(line, pfx) {
+		return nil, false
+	}
+	var toks []string
+	rest := line[len(pfx):]
+	for i := 0; i < len(rest); {
+		c := rest[i]
+		switch {
+		case c == ' ' || c == '\t':
+			i++
+		case c == '(' || c == ')' || c == '!':
+			toks = append(toks, string(c))
+			i++
+		case strings.HasPrefix(rest[i:], "&&") || strings.HasPrefix(rest[i:], "||"):
+			toks = append(toks, rest[i:i+2])
+			i += 2
+		default:
+			j := i
+			for j < len(rest) && (rest[j] == '_' || rest[j] == '.' || rest[j] >= '0' && rest[j] <= '9' ||
+				rest[j] >= 'a' && rest[j] <= 'z' || rest[j] >= 'A' && rest[j] <= 'Z') {
+				j++
+			}
+			if j == i {
+				return nil, false
+			}
+			toks = append(toks, "t:"+rest[i:j])
+			i = j
+		}
+	}
+	pos := 0
+	peek := func() string {
+		if pos < len(toks) {
+			return toks[pos]
+		}
+		return ""
+	}
+	var parseOr func() (constraint.Expr, bool)
+	var parseNot func() (constraint.Expr, bool)
+	parseNot = func() (constraint.Expr, bool) {
+		t := peek()
+		switch {
+		case t == "!":
+			pos++
+			x, ok := parseNot()
+			if !ok {
+				return nil, false
+			}
+			return &constraint.NotExpr{X: x}, true
+		case t == "(":
+			pos++
+			x, ok := parseOr()
+			if !ok || peek() != ")" {
+				return nil, false
+			}
+			pos++
+			return x, true
+		case strings.HasPrefix(t, "t:"):
+			pos++
+			return &constraint.TagExpr{Tag: t[2:]}, true
+		}
+		return nil, false
+	}
+	parseAnd := func() (constraint.Expr, bool) {
+		x, ok := parseNot()
+		for ok && peek() == "&&" {
+			pos++
+			var y constraint.Expr
+			if y, ok = parseNot(); ok {
+				x = &constraint.AndExpr{X: x, Y: y}
+			}
+		}
+		return x, ok
+	}
+	parseOr = func() (constraint.Expr, bool) {
+		x, ok := parseAnd()
+		for ok && peek() == "||" {
+			pos++
+			var y constraint.Expr
+			if y, ok = parseAnd(); ok {
+				x = &constraint.OrExpr{X: x, Y: y}
+			}
+		}
+		return x, ok
+	}
+	e, ok := parseOr()
+	if !ok || pos != len(toks) {
+		return nil, false
+	}
+	return e, true
 }
 
 // ------------------------------------------------------------ section
